@@ -1,6 +1,8 @@
 package c15
 
 import (
+	"bytes"
+	"encoding/json"
 	"fmt"
 	"math/rand"
 	"os"
@@ -94,8 +96,7 @@ func (w *worker) edge(state []byte, o op, v, pre, post, failAt int) (string, []b
 		rt.Fatalf("reopen: %v", err)
 	}
 	ev["reopened"] = true
-	ev["rget"] = e.get(w.sw.ids)
-	ev["rlists"] = e.lists(basicGrid)
+	setReopenObs(ev, e.get(w.sw.ids), e.lists(basicGrid))
 	keys, raw := e.dump()
 	ev["keys"] = keys
 	if !w.seenFull[raw] {
@@ -157,12 +158,12 @@ func Run(r *rt.Run) error {
 	nRandom, randLen := 150, 40
 	if r.Thorough() {
 		sweeps = []sweep{
-			{"plain3", []string{"a", "ab", "b"}, allKinds, 4, 3},
-			{"dots", []string{".", "..", "a"}, allKinds, 4, 2},
-			{"deep2", []string{"a", "ab"}, allKinds, 5, 2},
+			{"plain3", []string{"a", "ab", "b"}, allKinds, 4, 2},
+			{"dots", []string{".", "..", "a"}, allKinds, 3, 2},
+			{"deep2", []string{"a", "ab"}, []string{"Put", "Replace", "Delete", "Rebuild"}, 5, 1},
 			{"deepest", []string{"a", "ab"}, []string{"Put", "Delete", "Rebuild"}, 6, 0},
 		}
-		nRandom, randLen = 3000, 60
+		nRandom, randLen = 2000, 60
 	} else {
 		sweeps = []sweep{
 			{"plain3", []string{"a", "ab", "b"}, allKinds, 3, 2},
@@ -175,7 +176,10 @@ func Run(r *rt.Run) error {
 	}
 
 	// units -> a fixed number of trace files, each processed sequentially by one goroutine
-	const nFiles = 16
+	nFiles, rfiles := 8, 2
+	if r.Thorough() {
+		nFiles, rfiles = 64, 8
+	}
 	var units []unit
 	for _, sw := range sweeps {
 		for i := range opsOver(sw.ids, sw.kinds) {
@@ -222,7 +226,6 @@ func Run(r *rt.Run) error {
 
 	// seeded random long histories over all five IDs on one open handle, with random
 	// faults, reopens and full-grid observations
-	rfiles := 4
 	rtr := make([]*rt.Trace, rfiles)
 	seeds := make([]int64, rfiles)
 	for i := range rtr {
@@ -262,6 +265,24 @@ func Run(r *rt.Run) error {
 	r.Extra["random_ops"] = nr
 	r.Finish("history trees: every sequence of Create/Put/Replace/Delete/Rebuild up to the depth bound over the sweep's IDs x {x,y} executed once per tree edge on a real Bolt file (file content restored per edge, store closed and reopened after every transaction), every FailAt(k) variant of every operation at the shallow nodes through the fault-injecting storage.Interface wrapper; after every operation Get for every ID and a basic grid of List/ReverseList before and after the reopen, the full (index,pattern,offset,limit,reverse) grid on the first visit of each raw store content, and the raw key dump; then seeded random long histories over all five IDs with random faults/reopens; non-trivial = one subtree per first operation, or one random history", true)
 	return nil
+}
+
+// setReopenObs records the observation taken after the reopen.  ReopenSame is the
+// statement "same observations as before the reopen": when the two are identical
+// (compared as marshalled JSON) only the flag rsame is logged and the specification
+// has nothing further to check; when they differ both are logged and TLC decides.
+func setReopenObs(ev rt.M, rget, rlists []any) {
+	a, err1 := json.Marshal([]any{ev["get"], ev["lists"]})
+	b, err2 := json.Marshal([]any{rget, rlists})
+	if err1 != nil || err2 != nil {
+		rt.Fatalf("marshal observation: %v %v", err1, err2)
+	}
+	if bytes.Equal(a, b) {
+		ev["rsame"] = true
+		return
+	}
+	ev["rsame"] = false
+	ev["rget"], ev["rlists"] = rget, rlists
 }
 
 func sampleTrace(r *rt.Run, tmp string) {
@@ -326,8 +347,7 @@ func randomHistory(t *rt.Trace, rng *rand.Rand, file string, full []query, n int
 			if e, err = openEnv(file, wrapAll); err != nil {
 				rt.Fatalf("reopen: %v", err)
 			}
-			ev["rget"] = e.get(allIDs)
-			ev["rlists"] = e.lists(basicGrid)
+			setReopenObs(ev, e.get(allIDs), e.lists(basicGrid))
 		} else if !wrapAll && e.fs != nil {
 			e.close()
 			if e, err = openEnv(file, false); err != nil {
